@@ -6,6 +6,7 @@ package main
 import (
 	"fmt"
 	"go/token"
+	"go/types"
 	"sort"
 	"strings"
 
@@ -15,12 +16,13 @@ import (
 func init() {
 	register(&propDef{
 		id:      "C37",
-		explain: "Structural necessary conditions of race freedom for the state fasthttp itself shares between goroutines (a discipline check, not a race detector): (E8) every access to a field in the guarded-by table happens with its mutex held - the table was discovered from field/lock co-occurrence statistics over the whole module, confirmed entry by entry by reading, and is frozen in the checker with one reason per exemption; helper functions documented to run with the lock held are analysed with the lock held and every call site is checked to hold it; (atomic) a field that is accessed through sync/atomic functions anywhere is accessed only through them; (publish) objects that are read without a lock after publication (DNS cache entries in a sync.Map) have their payload fields assigned only while freshly allocated, never after they became reachable by other goroutines. Not decided: state outside the table, user handlers, happens-before through channels, the schedules a race detector would need.",
+		explain: "Structural necessary conditions of race freedom for the state fasthttp itself shares between goroutines (a discipline check, not a race detector): (E8) every access to a field in the guarded-by table happens with its mutex held - the table was discovered from field/lock co-occurrence statistics over the whole module, confirmed entry by entry by reading, and is frozen in the checker with one reason per exemption; helper functions documented to run with the lock held are analysed with the lock held and every call site is checked to hold it; (atomic) a field that is accessed through sync/atomic functions anywhere is accessed only through them; (publish) objects that are read without a lock after publication (DNS cache entries in a sync.Map) have their payload fields assigned only while freshly allocated, never after they became reachable by other goroutines. The table is extended on every run with the Server fields that RequestCtx methods read (handler goroutines, which may outlive their connection after TimeoutError) and that Server methods assign: their plain accesses must hold Server.mu (a field of an atomic type has none). (R-own) no store into a pointer-, channel-, map-, slice- or interface-typed field of a RequestCtx takes its value from the same field of another RequestCtx (connection-level fields excepted, each with a reason): the ctx left with a timed-out handler goroutine and the fresh ctx of the connection goroutine never share a completion channel or timer. Not decided: state outside the table, user handlers, happens-before through channels, the schedules a race detector would need.",
 		run:     runC37,
 	})
 }
 
 func runC37(p *Prog, r *Report) {
+	ctxFieldsNotShared(p, r)
 	tbl := &lockTable{
 		guards: map[string]string{
 			// worker pool
@@ -75,6 +77,43 @@ func runC37(p *Prog, r *Report) {
 			"newCacheManager":   "constructor: not shared yet",
 			"(*fsFile).Release": "runs only once no reader and no list refers to the file any more",
 		},
+	}
+	// Server fields that RequestCtx methods read (on handler goroutines, which may outlive their connection after
+	// TimeoutError) and that Server methods assign while serving: every plain access must hold Server.mu. (A field of
+	// an atomic type has no plain accesses and passes; the compiler keeps its users on Load/Store.)
+	{
+		read := map[string]string{}
+		written := map[string]bool{}
+		for _, fn := range p.funcsIn("") {
+			rt := recvTypeName(fn)
+			for _, b := range fn.Blocks {
+				for _, in := range b.Instrs {
+					switch w := in.(type) {
+					case *ssa.UnOp:
+						if fa, ok := w.X.(*ssa.FieldAddr); ok && w.Op == token.MUL && typeNameOf(fa.X) == "Server" && rt == "RequestCtx" {
+							read[fieldName(fa.X.Type(), fa.Field)] = funcName(fn)
+						}
+					case *ssa.Store:
+						if fa, ok := w.Addr.(*ssa.FieldAddr); ok && typeNameOf(fa.X) == "Server" && rt == "Server" {
+							written[fieldName(fa.X.Type(), fa.Field)] = true
+						}
+					}
+				}
+			}
+		}
+		n := 0
+		for f, by := range read {
+			if !written[f] {
+				continue
+			}
+			n++
+			if _, has := tbl.guards["Server."+f]; !has {
+				tbl.guards["Server."+f] = "Server.mu"
+			}
+			r.Note("Server.%s is read by %s and assigned by Server methods: required to be accessed under Server.mu", f, by)
+		}
+		r.Counts["Server fields read by RequestCtx methods"] = len(read)
+		r.Counts["... of which assigned by Server methods (lock required)"] = n
 	}
 	checkLockset(p, r, "E8", tbl, nil)
 	r.Counts["E8 guarded-by table entries"] = len(tbl.guards)
@@ -198,4 +237,91 @@ func atomicExempt(k string) string {
 	switch k {
 	}
 	return ""
+}
+
+// ctxFieldsNotShared (C37.R-own): two RequestCtx objects never come to share
+// a mutable helper. After a timeout the connection goroutine continues with a
+// fresh ctx while the old one stays with the handler goroutine that is still
+// running; whatever the old ctx signals on or writes through (its completion
+// channel, its timer) must stay its own. No store into a field of a RequestCtx
+// takes its value from a load of the same field of another RequestCtx, unless
+// the field holds immutable or connection-level data (listed with a reason).
+func ctxFieldsNotShared(p *Prog, r *Report) {
+	shared := map[string]string{
+		"s":              "the server: one per ctx by design, immutable pointer",
+		"c":              "the connection: the fresh ctx serves the same connection",
+		"logger":         "connection-level logger",
+		"connID":         "connection number (value)",
+		"connTime":       "connection start (value)",
+		"connRequestNum": "request counter (value)",
+		"remoteAddr":     "connection address (value semantics)",
+	}
+	n := 0
+	for _, fn := range p.funcsIn("") {
+		for _, b := range fn.Blocks {
+			for _, in := range b.Instrs {
+				st, ok := in.(*ssa.Store)
+				if !ok {
+					continue
+				}
+				fa, ok := st.Addr.(*ssa.FieldAddr)
+				if !ok || typeNameOf(fa.X) != "RequestCtx" {
+					continue
+				}
+				fv := fieldVar(fa.X.Type(), fa.Field)
+				// the value: a load of the same field through another base
+				var src *ssa.FieldAddr
+				seen := map[ssa.Value]bool{}
+				var find func(v ssa.Value)
+				find = func(v ssa.Value) {
+					if v == nil || seen[v] {
+						return
+					}
+					seen[v] = true
+					switch w := v.(type) {
+					case *ssa.UnOp:
+						if f2, ok := w.X.(*ssa.FieldAddr); ok && w.Op == token.MUL && fieldVar(f2.X.Type(), f2.Field) == fv && f2.X != fa.X {
+							src = f2
+						}
+					case *ssa.Phi:
+						for _, e := range w.Edges {
+							find(e)
+						}
+					case *ssa.Extract:
+						// multiple assignment a, b = x.a, x.b
+					}
+				}
+				find(st.Val)
+				if src == nil {
+					continue
+				}
+				n++
+				why, ok := shared[fv.Name()]
+				if ok {
+					r.Check("R-own", fmt.Sprintf("%s: RequestCtx.%s copied from another ctx", funcName(fn), fv.Name()), true, p.Pos(st.Pos()), "allowed: "+why)
+					continue
+				}
+				kind := "value"
+				switch fv.Type().Underlying().(type) {
+				case *types.Chan:
+					kind = "channel"
+				case *types.Pointer:
+					kind = "pointer"
+				case *types.Map:
+					kind = "map"
+				case *types.Slice:
+					kind = "slice"
+				case *types.Interface:
+					kind = "interface value"
+				}
+				if kind == "value" {
+					r.Check("R-own", fmt.Sprintf("%s: RequestCtx.%s copied from another ctx", funcName(fn), fv.Name()), true, p.Pos(st.Pos()), "plain value: nothing is shared")
+					continue
+				}
+				r.Check("R-own", fmt.Sprintf("%s: RequestCtx.%s copied from another ctx", funcName(fn), fv.Name()), false, p.Pos(st.Pos()),
+					fmt.Sprintf("two RequestCtx objects now hold the same %s: the ctx left with a still-running (timed-out) handler goroutine and the ctx the connection goroutine goes on with signal, wait or write through one object - a late completion of the old handler is taken for the new request's, and both goroutines then use one ctx unsynchronised", kind))
+			}
+		}
+	}
+	r.Counts["R-own copies of a RequestCtx field from another ctx"] = n
 }
